@@ -119,6 +119,8 @@ def clause_fails(tmpdir, item, which):
         return (not r.get('idem', True)), r
     if which == 'sharing-sensitivity':
         return (not r.get('interned_equal', True)), r
+    if which == 'rerun-differs':
+        return (not r.get('rerun_equal', True)), r
     return (not all(r.get('variants_equal', []))), r
 
 def minimise_item(item, test):
@@ -223,6 +225,8 @@ def main(args):
                     viol.append(('order-insensitivity', items[idx], w, hs[0], nz0, nz0, {'simp': res['simp'][0]}))
             elif kind == 'emul':
                 nt = len(res['dump_mem']) >= 2
+                if not res.get('rerun_equal', True):
+                    viol.append(('rerun-differs', items[idx], w, hs[0], nz0, nz0, {'dump_id': res['dump_id'][:5]}))
             elif kind == 'lift':
                 nt = bool(res['lift'])
             elif kind == 'symline':
